@@ -133,7 +133,8 @@ fn c11_overhead_any_size() {
     kani::assume(pl <= 2);
     p.payload = vec![0u8; pl];
     let s = H::compute_message_size_hack(&mut p);
-    let hdr = if l < 13 { 1 } else if l < 269 { 2 } else { 3 };
+    // option 15 as the first option: delta 15 needs the one-byte extension, plus the length extension
+    let hdr = 2 + if l < 13 { 0 } else if l < 269 { 1 } else { 2 };
     assert!(s == 4 + hdr + l + pl, "C10: measured size = encoded size less the payload marker");
     assert!(p.payload.len() == pl, "C11: measuring puts the payload back");
     kani::cover!(l == 1400, "overhead above 1280");
@@ -141,47 +142,55 @@ fn c11_overhead_any_size() {
     core::mem::forget(p);
 }
 
-//@ props=C10 tier=quick timeout=1500 mem=14 cap=4
-//@ functions=BlockHandler::compute_message_size_hack, Packet::to_bytes, Packet::add_option_as::<BlockValue>
-//@ bounds=message: token 0..8, Uri-Path of symbolic length 0..20, one further option (number 12 or 60 - below / above the block options) of 0..2 bytes, payload 0..3; block options with any num/more/szx
-//@ what=ties the integer kernel to real messages: measured size = encoded length less the payload marker, and marker + Block1 + Block2 options stay within the 12 bytes the negotiation reserves
-#[kani::proof]
-#[kani::unwind(6)]
-#[kani::stub(core::fmt::write, crate::verif_harness::stub_write)]
-fn c10_overhead_bridge() {
-    let mut p = Packet::new();
-    p.header.code = MessageClass::Response(ResponseType::Content);
-    let tl: usize = kani::any();
-    kani::assume(tl <= 8);
-    p.set_token(vec![0u8; tl]);
-    let ul: usize = kani::any();
-    kani::assume(ul <= 20);
-    let high: bool = kani::any();
-    let ol: usize = kani::any();
-    kani::assume(ol <= 2);
-    let mut l1 = LinkedList::new();
-    l1.push_back(vec![b'a'; ul]);
-    p.options.verif_push_sorted(11, l1);
-    let mut l2 = LinkedList::new();
-    l2.push_back(vec![1u8; ol]);
-    p.options.verif_push_sorted(if high { 60 } else { 12 }, l2);
-    let pl: usize = kani::any();
-    kani::assume(pl <= 3);
-    p.payload = vec![7u8; pl];
-    let measured = H::compute_message_size_hack(&mut p);
-    let before = match p.to_bytes() { Ok(b) => b.len(), Err(_) => { assert!(false); return; } };
-    // (the measurement leaves out the payload marker; the 12-byte allowance has to cover it)
-    assert!(measured + if pl > 0 { 1 } else { 0 } == before, "C10: the overhead measurement equals the encoded length less the payload marker");
-    let b1 = BlockValue { num: kani::any(), more: kani::any(), size_exponent: kani::any::<u8>() & 7 };
-    let b2 = BlockValue { num: kani::any(), more: kani::any(), size_exponent: kani::any::<u8>() & 7 };
-    p.add_option_as(CoapOption::Block2, b2);
-    p.add_option_as(CoapOption::Block1, b1);
-    let after = match p.to_bytes() { Ok(b) => b.len(), Err(_) => { assert!(false); return; } };
-    assert!(after <= measured + BLOCK_OPTIONS_MAX_LENGTH, "C10: payload marker + Block1 + Block2 options stay within the 12-byte allowance the negotiation reserves");
-    kani::cover!(after == before + 9, "two full-size block options");
-    kani::cover!(ul == 13, "extended Uri-Path length");
-    core::mem::forget(p);
+macro_rules! c10_bridge {
+    ($name:ident, $pl:expr, $high:expr) => {
+        #[kani::proof]
+        #[kani::unwind(6)]
+        #[kani::stub(core::fmt::write, crate::verif_harness::stub_write)]
+        fn $name() {
+            let mut p = Packet::new();
+            p.header.code = MessageClass::Response(ResponseType::Content);
+            p.set_token(vec![1u8, 2]);
+            // the one symbolic length of this query: a Uri-Path value of 0..20 bytes
+            let ul: usize = kani::any();
+            kani::assume(ul <= 20);
+            let mut l1 = LinkedList::new();
+            l1.push_back(vec![b'a'; ul]);
+            p.options.verif_push_sorted(11, l1);
+            let mut l2 = LinkedList::new();
+            l2.push_back(vec![1u8]);
+            p.options.verif_push_sorted(if $high { 60 } else { 12 }, l2);
+            let pl: usize = $pl;
+            p.payload = vec![7u8; pl];
+            let measured = H::compute_message_size_hack(&mut p);
+            let before = match p.to_bytes() { Ok(b) => b.len(), Err(_) => { assert!(false); return; } };
+            // (the measurement leaves out the payload marker; the 12-byte allowance has to cover it)
+            assert!(measured + if pl > 0 { 1 } else { 0 } == before, "C10: the overhead measurement equals the encoded length less the payload marker");
+            let b1 = BlockValue { num: kani::any(), more: kani::any(), size_exponent: kani::any::<u8>() & 7 };
+            let b2 = BlockValue { num: kani::any(), more: kani::any(), size_exponent: kani::any::<u8>() & 7 };
+            p.add_option_as(CoapOption::Block2, b2);
+            p.add_option_as(CoapOption::Block1, b1);
+            let after = match p.to_bytes() { Ok(b) => b.len(), Err(_) => { assert!(false); return; } };
+            assert!(after <= measured + BLOCK_OPTIONS_MAX_LENGTH, "C10: payload marker + Block1 + Block2 options stay within the 12-byte allowance the negotiation reserves");
+            kani::cover!(after == before + 8, "two block options with full-size block numbers");
+            kani::cover!(ul == 13, "extended Uri-Path length");
+            core::mem::forget(p);
+        }
+    };
 }
+
+//@ props=C10 tier=quick timeout=1500 mem=14 cap=4 name=c10_overhead_bridge
+//@ functions=BlockHandler::compute_message_size_hack, Packet::to_bytes, Packet::add_option_as::<BlockValue>
+//@ bounds=message: 2-byte token, Uri-Path of symbolic length 0..20, one further option (number 60, above the block options) of 1 byte, payload of 2 bytes; block options with any num/more/szx
+//@ what=ties the integer kernel to real messages: measured size = encoded length less the payload marker, and marker + Block1 + Block2 options stay within the 12 bytes the negotiation reserves
+//@ outside=more than 2 pre-existing options (an added option costs at most 1 + 1 + 3 bytes and can only shrink the next delta)
+c10_bridge!(c10_overhead_bridge, 2, true);
+
+//@ props=C10 tier=thorough timeout=1500 mem=14 cap=4 name=c10_overhead_bridge_nopayload
+//@ functions=BlockHandler::compute_message_size_hack, Packet::to_bytes, Packet::add_option_as::<BlockValue>
+//@ bounds=as c10_overhead_bridge without payload and with the further option below the block options (number 12)
+//@ what=as c10_overhead_bridge
+c10_bridge!(c10_overhead_bridge_nopayload, 0, false);
 
 // ---------------------------------------------------------------------------------------------
 // C08 / C12: serving blocks from a cached response
@@ -589,40 +598,40 @@ fn c10_413_hint() {
     q.payload = vec![0u8; pl];
     let mut req = CoapRequest::from_packet(q, 9u8);
     let m: usize = kani::any();
-    // request overhead: 4 header bytes + 1 token byte + (1 marker byte when there is a payload)
-    let overhead = 5 + if pl > 0 { 1 } else { 0 };
-    kani::assume(m >= overhead + 28 && m <= 96);
+    // encoded request: 4 header bytes + 1 token byte + (marker + payload when there is one)
+    let encoded = 5 + if pl > 0 { 1 + pl } else { 0 };
+    kani::assume(m >= 5 + 28 && m <= 96);
     let mut state = BlockState::default();
     let r = H::maybe_handle_request_block1(&mut req, m, &mut state);
-    let max_block = m - overhead - 12;
     match r {
         Ok(false) => {
-            assert!(pl < max_block, "C09: a request too large for the budget is not passed to the application");
+            assert!(encoded <= m, "C09: a request too large for the budget is not passed to the application");
             if let Some(resp) = req.response.as_ref() {
-                assert!(resp.message.get_option(CoapOption::Block1).is_none(), "C09: a request that fits is passed on untouched");
+                assert!(resp.message.get_option(CoapOption::Block1).is_none(), "C09: a request that is passed on is left untouched");
                 assert!(resp.message.header.code == MessageClass::Response(ResponseType::Content));
             }
-            assert!(req.message.payload.len() == pl, "C09: a request that fits keeps its payload");
-            kani::cover!(pl + 1 == max_block, "largest request that fits");
+            assert!(req.message.payload.len() == pl, "C09: a request that is passed on keeps its payload");
+            kani::cover!(pl > 0, "a request with payload is passed on");
         }
         Ok(true) => {
-            assert!(pl >= max_block, "C09: only an oversized request is answered by the handler");
             let resp = match req.response.as_ref() { Some(r) => r, None => { assert!(false); return; } };
             assert!(resp.message.header.code == MessageClass::Response(ResponseType::RequestEntityTooLarge), "C09: oversized request without Block1 => 4.13");
             match resp.message.get_first_option_as::<BlockValue>(CoapOption::Block1) {
                 Some(Ok(b)) => {
                     let s = b.size();
                     assert!(is_pow2(s) && s >= 16 && s <= 1024, "C10: hinted block size is a power of two in 16..1024");
-                    assert!(overhead + 12 + s <= m, "C10: the client's next upload block of the hinted size fits the budget");
+                    // the client's next upload block: header 4 + token 1 + marker and Block1 option (<= 12) + s bytes
+                    assert!(5 + 12 + s <= m, "C10: the client's next upload block of the hinted size fits the budget");
                     assert!(b.num == 0, "C09: the hint is for block 0");
                     kani::cover!(s == 32, "hint of 32 bytes");
                     kani::cover!(s == 16, "hint of 16 bytes");
                 }
                 _ => assert!(false, "C09: 4.13 carries a Block1 size hint"),
             }
+            kani::cover!(encoded > m, "a request that does not fit");
         }
         Err(e) => {
-            assert!(tn & 3 >= 2 && pl >= max_block, "C11: only an oversized request without a prepared response is an error");
+            assert!(tn & 3 >= 2, "C11: only a request without a prepared response is an error here");
             kani::cover!(true, "oversized ACK/RST");
         }
     }
